@@ -241,6 +241,22 @@ mksection .text
                            tmp, tmp2, k1, k2, k3, k4, k5, k6, \
                            %%GEN
 
+%ifdef SAFE_DATA
+        ;; clear keystream generated for empty lanes (copies of a valid lane)
+        mov             DWORD(tmp), DWORD(init_lanes)
+        not             DWORD(tmp)
+        and             DWORD(tmp), 0xffff
+        vpxorq          ymm0, ymm0
+%%clear_ks_uia2:
+        bsf             DWORD(tmp2), DWORD(tmp)
+        jz              %%clear_ks_done_uia2
+        btr             DWORD(tmp), DWORD(tmp2)
+        shl             DWORD(tmp2), 5 ;; ks stored at 32 byte offsets
+        vmovdqa32       [state + _snow3g_ks + tmp2], ymm0
+        jmp             %%clear_ks_uia2
+%%clear_ks_done_uia2:
+%endif
+
         ;; update init_done for valid initialized lanes
         mov     [state + _snow3g_init_done], WORD(init_lanes)
         bsf     DWORD(idx), DWORD(init_lanes)
